@@ -560,6 +560,23 @@ impl OrderName for Msb0 {
     const MSB: bool = true;
 }
 
+/// Builds the bit vector in a deliberately "used" state (a pure function of the bits): a
+/// non-zero head offset inside the first storage element (len % 7 bits) and set dead bits behind
+/// the end.  The logical content is exactly `bits`; the encoding must not depend on the rest.
+pub fn dirty_bitvec<T: BitStore, O: BitOrder>(bits: &[bool]) -> BitVec<T, O> {
+    let head = bits.len() % 7;
+    let mut pre: BitVec<T, O> = BitVec::repeat(true, head);
+    pre.extend(bits.iter().copied());
+    let mut v = pre.split_off(head);
+    // dirty the dead bits behind the end
+    let extra = 1 + bits.len() % 5;
+    for _ in 0..extra {
+        v.push(true);
+    }
+    v.truncate(bits.len());
+    v
+}
+
 impl<T: BitStore + 'static, O: OrderName> Modelled for BitVec<T, O> {
     fn schema() -> S {
         S::Bits(size_of::<T>() as u8, O::MSB)
@@ -569,7 +586,7 @@ impl<T: BitStore + 'static, O: OrderName> Modelled for BitVec<T, O> {
     }
     fn from_model(v: &V) -> Self {
         match v {
-            V::Bits(b) => b.iter().copied().collect(),
+            V::Bits(b) => dirty_bitvec::<T, O>(b),
             _ => panic!("modelled: bits"),
         }
     }
